@@ -161,6 +161,7 @@ VWrite(e) ==
      ELSE Vd("", [L EXCEPT ![s] = obs], mp, P2, g2)
 
 Documented == {"ok", "UCWE", "NotEnough", "NotEnoughShares", "Unrecoverable"}
+Retrying == C.op \in {"modify", "update"}
 BaseShnums(M) == {p[2] : p \in UpdateGoalDoc(M, C.base)}
 \* the grid holds a recoverable version (all servers connected): some genuine code on K distinct share numbers
 GridRecoverable == \E c \in 1..Len(C.vers) : Cardinality({sh \in Shnums : \E s \in Servers : L[s][sh] = c}) >= K
@@ -177,8 +178,11 @@ VFinish(e) ==
      ELSE IF published /\ e.res = "ok" /\ gh.failed THEN Rej("X_failed_test_vector_not_reported")
      ELSE IF published /\ e.res = "ok" /\ gh.foreign THEN Rej("X_foreign_share_not_reported")
      ELSE IF published /\ e.res = "ok" /\ nack < K THEN Rej("X_success_with_fewer_than_k_shares")
-     ELSE IF published /\ e.res \in Documented /\ C.op # "modify" /\ e.res \notin Results(P) THEN Rej("X_result")
-     ELSE IF published /\ C.op = "modify" /\ e.res = "ok" /\ "ok" \notin Results(P) THEN Rej("X_result")
+     \* upload() has no retry loop: its result is the result of its one publish.  modify() and update() run the loop of
+     \* MutableFileVersion.modify (update() when it re-encodes the file): an attempt that met another writer is repeated, the
+     \* loop may give up with the error of a later step; only a success must be the success of the last publish
+     ELSE IF published /\ e.res \in Documented /\ ~Retrying /\ e.res \notin Results(P) THEN Rej("X_result")
+     ELSE IF published /\ Retrying /\ e.res = "ok" /\ "ok" \notin Results(P) THEN Rej("X_result")
      \* ---- results outside the documented ones (keyed by operation and exception class)
      ELSE IF e.res \notin Documented THEN Rej("X_undocumented_error")
      \* ---- nothing was sent
@@ -221,7 +225,7 @@ VAfter(e) ==
      ELSE IF ok /\ newv \notin ToSet(e.dl) /\ newest /\ C.op = "update" /\ gh.att >= 2 THEN Rej("X_update_retry_publishes_other_contents")
      \* (a version of the same or a higher seqnum that the survey could not see may still win: "server unavailability counts against us")
      ELSE IF ok /\ newv \notin ToSet(e.dl) /\ newest THEN Rej("X_reader_does_not_get_the_new_version")
-     ELSE IF C.op = "modify" /\ gh.res \in {"NotEnoughShares", "Unrecoverable"} /\ GridRecoverable
+     ELSE IF Retrying /\ gh.res \in {"NotEnoughShares", "Unrecoverable"} /\ GridRecoverable
        THEN Rej("X_modify_gives_up_on_recoverable_file")
      ELSE IF gh.oldmiss THEN Rej("X_modify_retry_reads_old_version")
      ELSE IF ok /\ gh.faults > 0 /\ {p[2] : p \in P.acked} # Shnums /\ C.op # "update"
